@@ -1,5 +1,6 @@
 """C13 - interventions follow the truncated factorisation (DESIGN.md 5/C13)."""
 import itertools
+from fractions import Fraction
 
 import numpy as np
 
@@ -104,11 +105,40 @@ def scenarios(tier, seed):
         for _ in range(120):
             edges = [p for p in pairs if rnd.random() < 0.45]
             out.append(dict(family="criteria/n5", mode="criteria", n=5, edges=edges, latent=None, hashseed=0, budget_s=200))
+    # adjustment strata of probability zero (a zero entry in the CPD of an adjustment variable): both back-ends, concrete tables
+    for eng in ("ve", "bp"):
+        for v in range(2):
+            out.append(dict(family="query/zero-stratum", mode="zerostratum", engine=eng, variant=v, hashseed=v, concrete_only=True))
     return out
 
 
 def run(desc, M):
-    return {"do": run_do, "query": run_query, "criteria": run_criteria}[desc["mode"]](desc, M)
+    return {"do": run_do, "query": run_query, "criteria": run_criteria, "zerostratum": run_zero_stratum}[desc["mode"]](desc, M)
+
+
+def run_zero_stratum(desc, M):
+    """Z -> X, Z -> Y, X -> Y with P(Z = last state) = 0: P(Y | do(X = x)) = sum_z P(z) P(Y | x, z) - the impossible stratum contributes nothing"""
+    from pgmpy.factors.discrete import TabularCPD
+    from pgmpy.inference import CausalInference
+    from pgmpy.models import BayesianNetwork
+    M.declare([])
+    v = desc["variant"]
+    pz = [Fraction(1, 4), Fraction(3, 4), Fraction(0)] if v == 0 else [Fraction(0), Fraction(1)]
+    kz = len(pz)
+    px = [[Fraction(1 + i, 5) for i in range(kz)], [1 - Fraction(1 + i, 5) for i in range(kz)]]
+    py = [[Fraction(1 + (2 * i + 3 * j) % 7, 9) for i in range(2) for j in range(kz)]]
+    py.append([1 - t for t in py[0]])
+    m = BayesianNetwork([("Z", "X"), ("Z", "Y"), ("X", "Y")])
+    m.add_cpds(TabularCPD("Z", kz, [[float(t)] for t in pz]), TabularCPD("X", 2, [[float(t) for t in r] for r in px], ["Z"], [kz]),
+               TabularCPD("Y", 2, [[float(t) for t in r] for r in py], ["X", "Z"], [2, kz]))
+    ci = CausalInference(m)
+    for x in range(2):
+        res = ci.query(["Y"], do={"X": x}, inference_algo=desc["engine"], show_progress=False)
+        for y in range(2):
+            want = sum(pz[z] * py[y][x * kz + z] for z in range(kz))
+            got = float(res.values[y])
+            M.check(abs(got - float(want)) <= 1e-9, "interventional query equals the truncated factorisation when an adjustment stratum has probability zero",
+                    detail=f"{desc['engine']}: P(Y={y} | do(X={x})) = {got!r}, want {float(want)!r}")
 
 
 def read_cpd(desc, nm, cpd, a):
